@@ -141,10 +141,12 @@ PROPS = {
                  "no stall (40 simulated seconds without an enabled task) with lock holders and stacks reported; every mutating call invoked after Close "
                  "returned gets an error; _access_count of the shared node within [acknowledged, issued] reinforcements, live and after restart; every "
                  "acknowledged metadata key present; KV history linearizable (porcupine, call/return = global event sequence numbers, <=200 ops, Unknown "
-                 "= inconclusive). The same seeds also run in the -race build (a quarter of them). Non-trivial: >=6 recorded ops and >10 grants; "
-                 "distinct = task programs + hash of the grant sequence."),
+                 "= inconclusive). A quarter of the seeds also run in the -race build, twice: under the cooperative scheduler, and FREE-RUNNING (same task "
+                 "programs as real goroutines on 4 Ps, real clock, no simulator, randomised yields at op boundaries - the property's own quantifier names the Go "
+                 "scheduler under the race detector); the free-running tier is the one that sees races and lock-order deadlocks between tasks, its schedules are "
+                 "not the simulator's and do not replay. Non-trivial: >=6 recorded ops and >10 grants; distinct = task programs + hash of the grant sequence."),
         "real_vs_stub": REAL + "; goroutine choice at every lock/IO decision point is the simulator's",
-        "assumptions": ["data races are only visible to the -race tier inside one scheduler step (the scheduler's own hand-off creates happens-before edges between steps): the data-race clause is covered partially",
+        "assumptions": ["under the cooperative scheduler data races are only visible inside one scheduler step (the hand-off creates happens-before edges between steps); the free-running -race tier covers races between tasks, by sampling real executions, not by controlled schedules",
                         "decision points exist only at rewritten lock operations and file calls"],
     },
     "C12": {
@@ -327,10 +329,10 @@ MANIFEST_TEXT = {
         "technique": "deterministic simulation: cooperative scheduler over the cascade goroutine + Close injection + disk-event crash images, dangling-edge oracle over all graph views",
     },
     "C13": {
-        "text": "Seeded search over schedules of mixed client, admin, subscriber and Close tasks under the cooperative scheduler, with a stall detector (deadlock), process-death detection (panic/fatal/SIGSEGV), per-item counting oracles (reinforcements, metadata merges), a linearizability check of the KV history (porcupine) and clean-failure-after-Close; a quarter of the seeds are repeated in the -race build.",
+        "text": "Seeded search over schedules of mixed client, admin, subscriber and Close tasks under the cooperative scheduler, with a stall detector (deadlock), process-death detection (panic/fatal/SIGSEGV), per-item counting oracles (reinforcements, metadata merges), a linearizability check of the KV history (porcupine) and clean-failure-after-Close; a quarter of the seeds are repeated in the -race build, under the scheduler and free-running.",
         "design_ref": "DESIGN.md section 6 C13, section 2.3",
-        "note": "Schedules are sampled, not enumerated. The data-race clause is covered only partially (races inside one scheduler step); lock-free code between two decision points is atomic to the scheduler.",
-        "technique": "deterministic simulation: cooperative lock/IO scheduler (PCT) + stall detector + porcupine linearizability + per-item counting oracles; -race build on the same seeds",
+        "note": "Schedules are sampled, not enumerated. Lock-free code between two decision points is atomic to the scheduler. The data-race clause is decided by the free-running -race tier (real goroutines, real clock), which is observation of uncontrolled executions and is labelled so; a race it reports comes with the detector's two stacks and the seed of the task programs, not with a replayable schedule.",
+        "technique": "deterministic simulation: cooperative lock/IO scheduler (PCT) + stall detector + porcupine linearizability + per-item counting oracles; plus -race build of the same programs under the scheduler and free-running (Go scheduler, 4 Ps)",
     },
     "C14": {
         "text": "Seeded search over schedules: writers, snapshot/compaction/flush requests, the log writer goroutine, background housekeeping and Close are interleaved by a cooperative scheduler that owns every lock and file-system decision point; acknowledged versions are compared with what survives Close+Open and with crash images taken at the moment Flush/Sync/SaveSnapshot/RewriteAOF return.",
